@@ -332,7 +332,7 @@ class Recorder:
             self.errors.append(f"vacuous assumption set ({label}) in {self.unit}")
         return r == "sat"
 
-    def prove(self, name, claim, assume=(), replay=None, info=None, key=None):
+    def prove(self, name, claim, assume=(), replay=None, info=None, key=None, try_first=None):
         """obligation: assume => claim.  `replay(model)` returns a dict describing the
         reproduced discrepancy against the real code, or None if it does not reproduce."""
         assume = [a for a in assume if a is not True]
@@ -358,7 +358,14 @@ class Recorder:
         else:
             self.twin(assume, label=name)
             t = time.time()
-            r, mdl = self._check(assume + [z3.Not(claim)])
+            r = None
+            if try_first is not None:
+                # the claim may already follow from a subset of the assumptions (cheaper query)
+                r0, _m0 = self._check(list(try_first) + [z3.Not(claim)], min(self.timeout_ms, 10000))
+                if r0 == "unsat":
+                    r, mdl = "unsat", None
+            if r is None:
+                r, mdl = self._check(assume + [z3.Not(claim)])
             ob["time_s"] = round(time.time() - t, 3)
             h = hashlib.sha1(claim.sexpr().encode()).hexdigest()
             ob["nontrivial"] = True
